@@ -211,12 +211,74 @@ fn corpus_frames() -> Vec<Vec<u8>> {
     names.iter().filter_map(|n| std::fs::read(format!("{dir}/{n}")).ok()).filter(|b| b.len() <= 96 * 1024).collect()
 }
 
+fn dict_frames() -> (Vec<u8>, Vec<Vec<u8>>) {
+    let root = std::env::var("ZSIM_REPO").unwrap_or_else(|_| "/repo".into()) + "/ruzstd/dict_tests";
+    let dict = std::fs::read(format!("{root}/dictionary")).unwrap_or_default();
+    let dir = format!("{root}/files");
+    let mut names: Vec<String> = std::fs::read_dir(&dir).map(|rd| rd.filter_map(|e| e.ok()).map(|e| e.file_name().to_string_lossy().to_string()).filter(|n| n.ends_with(".zst")).collect()).unwrap_or_default();
+    names.sort();
+    names.truncate(60);
+    (dict, names.iter().filter_map(|n| std::fs::read(format!("{dir}/{n}")).ok()).collect())
+}
+
+/// (3) ONE decoder with the repository dictionary registered decodes a history of 2-4 frames: frames of the own
+/// compressor (content several times the window), corpus frames and frames that need the dictionary, in seeded
+/// order, each through reset + decode_blocks + collect or through decode_all_to_vec. Only results and decoded bytes
+/// enter the digest.
+fn decode_history(frames: &[&[u8]], r: &mut Rng, d: &mut Digest, dict: &[u8]) {
+    let mut dec = FrameDecoder::new();
+    if let Ok(parsed) = ruzstd::decoding::Dictionary::decode_dict(dict) {
+        let _ = dec.add_dict(parsed);
+    }
+    for f in frames {
+        if r.chance(1, 2) {
+            let mut out = Vec::with_capacity(1 << 20);
+            match dec.decode_all_to_vec(f, &mut out) {
+                Ok(()) => d.str("all-ok"),
+                Err(e) => d.str(&first_variant(&e)),
+            }
+            d.bytes(&out);
+        } else {
+            let mut src: &[u8] = f;
+            match dec.reset(&mut src) {
+                Ok(()) => {
+                    let mut out = Vec::new();
+                    let mut guard = 0;
+                    let mut failed = false;
+                    while !dec.is_finished() && guard < 100_000 {
+                        guard += 1;
+                        if let Err(e) = dec.decode_blocks(&mut src, BlockDecodingStrategy::UptoBlocks(r.urange(1, 3))) {
+                            d.str(&first_variant(&e));
+                            failed = true;
+                            break;
+                        }
+                        if r.chance(1, 2) {
+                            if let Some(v) = dec.collect() {
+                                out.extend_from_slice(&v);
+                            }
+                        }
+                    }
+                    // an abandoned frame now and then: the next reset must cope with leftovers
+                    if !failed || r.chance(1, 2) {
+                        if let Some(v) = dec.collect() {
+                            out.extend_from_slice(&v);
+                        }
+                    }
+                    d.bytes(&out);
+                }
+                Err(e) => d.str(&first_variant(&e)),
+            }
+        }
+    }
+}
+
 fn main() {
     let args: Vec<String> = std::env::args().collect();
     let base: u64 = args.get(1).and_then(|s| s.parse().ok()).unwrap_or(0);
     let from: u64 = args.get(2).and_then(|s| s.parse().ok()).unwrap_or(0);
     let to: u64 = args.get(3).and_then(|s| s.parse().ok()).unwrap_or(10);
     let corpus = corpus_frames();
+    let (dict, dict_pool) = dict_frames();
     let hash = cfg!(feature = "hash");
     println!("# cfgdrv std={} hash={} corpus_frames={}", cfg!(feature = "std"), hash, corpus.len());
     let stdout = std::io::stdout();
@@ -305,6 +367,21 @@ fn main() {
             }
         }
         line += &format!(" dec={:016x}", dd.finish());
+        // (3) a reused decoder with a registered dictionary
+        if !dict_pool.is_empty() {
+            let mut hd = Digest::new();
+            let mut rr = r.fork();
+            let mut hist: Vec<&[u8]> = Vec::new();
+            for _ in 0..rr.urange(2, 4) {
+                hist.push(match rr.below(4) {
+                    0 => &produced[1][..],
+                    1 if !corpus.is_empty() => &corpus[rr.usize_below(corpus.len())][..],
+                    _ => &dict_pool[rr.usize_below(dict_pool.len())][..],
+                });
+            }
+            decode_history(&hist, &mut rr, &mut hd, &dict);
+            line += &format!(" hist={:016x}", hd.finish());
+        }
         let _ = writeln!(lock, "{line}");
     }
     let s = STATS.lock().unwrap();
